@@ -18,8 +18,9 @@ class MachineryError(Exception):
     """TLC or the harness failed: exit code 2, never a VIOLATION."""
 
 
-def java_cmd(module_path, cfg, metadir, workers=1, xss="64m", xmx="3g", extra=()):
-    return ["java", "-Xss" + xss, "-Xmx" + xmx, "-XX:+UseSerialGC" if workers == 1 else "-XX:+UseParallelGC",
+def java_cmd(module_path, cfg, metadir, workers=1, xss="64m", xmx="3g", extra=(), c1=False):
+    return ["java", "-Xss" + xss, "-Xmx" + xmx, "-XX:+UseSerialGC" if workers == 1 else "-XX:+UseParallelGC"] + (
+        ["-XX:TieredStopAtLevel=1"] if c1 else ["-XX:CICompilerCount=2"] if workers == 1 else []) + [
             "-DTLA-Library=" + LIB, "-cp", JARS, "tlc2.TLC", "-workers", str(workers), "-metadir", metadir,
             "-noGenerateSpecTE", "-config", cfg] + list(extra) + [module_path]
 
@@ -94,7 +95,8 @@ def _run_shard(args):
         env = dict(os.environ)
         env["CASES"] = path
         env.update(env_extra or {})
-        cmd = java_cmd(os.path.join(VERIF, "trace", module), os.path.join(VERIF, "trace", module + ".cfg"), meta)
+        cmd = java_cmd(os.path.join(VERIF, "trace", module), os.path.join(VERIF, "trace", module + ".cfg"), meta,
+                       c1=sum(len(json.dumps(c)) for c in pending) < 400000)
         p = subprocess.run(cmd, cwd=shard_dir, env=env, stdout=subprocess.PIPE, stderr=subprocess.STDOUT, text=True)
         out = p.stdout
         logs.append(out)
